@@ -15,6 +15,14 @@ Scenario classes (each scenario runs in its own directory under .build/tmp-c18/<
   status  stub and real differs / git / rg with exit statuses 0, 1, 2, 129, killed, missing
   oneshot --show-config / --version with a closed reader
   stderr  wrapped command that fills the stderr pipe (termination)
+  errexit every exit path that is taken AFTER the pager was started, with a slow recording stub
+          pager (selected through --pager / delta.pager / DELTA_PAGER / PAGER / `less` on PATH):
+          unparsable --diff-args (command line, gitconfig, feature + DELTA_FEATURES), differ or
+          wrapped command missing, differ killed by a signal, differ reporting trouble, real git
+          on a missing file / a directory, stdin a terminal, option values that are only parsed
+          while rendering, subcommands with a pager of their own whose reader goes away; plus the
+          valid counterparts. Oracle: delta does not end before the pager does, the documented
+          status, a message for an error, nothing bypasses the pager, all output delivered
 
 Direct oracle (from the property statement, independent of the model): exit status, empty
 stderr and no write(2) when the reader disappears, no panic text, the pager received exactly
@@ -44,6 +52,7 @@ echo $$ > "$d/pager.pid"
 printf '%s\n' "${LESSHISTFILE-<unset>}" > "$d/pager.histfile"
 if [ -n "$STUB_READ_BYTES" ]; then /usr/bin/head -c "$STUB_READ_BYTES" > "$d/pager.stdin"
 else /usr/bin/cat > "$d/pager.stdin"; fi
+if [ -n "$STUB_CLOSE_STDIN" ]; then exec 0<&-; fi
 if [ -n "$STUB_SLEEP" ]; then /usr/bin/sleep "$STUB_SLEEP"; fi
 /usr/bin/date +%s.%N > "$d/pager.exit_time"
 exit ${STUB_EXIT:-0}
@@ -211,12 +220,17 @@ STRACE = shutil.which("strace") or "/usr/bin/strace"
 TRACE = "trace=write,close,wait4,waitid,exit_group,clone,clone3,vfork,fork"
 
 
-def run_proc(cmd, env, cwd, stdin_path=None, stdin_bytes=None, timeout=30, stdout_reader=None, pty_stdout=False):
+def run_proc(cmd, env, cwd, stdin_path=None, stdin_bytes=None, timeout=30, stdout_reader=None, pty_stdout=False,
+             pty_stdin=False):
     """Run with stdout/stderr to files (so that an orphaned pager cannot keep our pipes open).
     `stdout_reader = k`: stdout is a pipe that we read k bytes from and then close.
     Returns dict(rc, out, err, t_end)."""
     outp, errp = os.path.join(cwd, "stdout"), os.path.join(cwd, "stderr")
     fin = open(stdin_path, "rb") if stdin_path else (subprocess.PIPE if stdin_bytes is not None else subprocess.DEVNULL)
+    pty_master = None
+    if pty_stdin:
+        import pty
+        pty_master, fin = pty.openpty()      # stdin is a terminal nobody types on
     ferr = open(errp, "wb")
     try:
         if pty_stdout:
@@ -279,7 +293,10 @@ def run_proc(cmd, env, cwd, stdin_path=None, stdin_bytes=None, timeout=30, stdou
         t_end = time.time()
     finally:
         ferr.close()
-        if stdin_path:
+        if pty_master is not None:
+            os.close(fin)
+            os.close(pty_master)
+        elif stdin_path:
             fin.close()
     return dict(rc=rc, out=read_file(outp, b""), err=read_file(errp, b""), t_end=t_end)
 
@@ -385,7 +402,8 @@ def observe(lab, sc, idx):
             st += ["-e", "inject=write:error=%s:when=%s" % (inj["errno"], inj["when"])]
         cmd = st + cmd
     r = run_proc(cmd, env, sdir, stdin_path=sc.get("stdin"), timeout=sc.get("timeout", 30),
-                 stdout_reader=sc.get("stdout_reader"), pty_stdout=bool(sc.get("pty")))
+                 stdout_reader=sc.get("stdout_reader"), pty_stdout=bool(sc.get("pty")),
+                 pty_stdin=bool(sc.get("pty_stdin")))
     obs = dict(rc=r["rc"], stdout=r["out"], stderr=r["err"], t_end=r["t_end"])
     obs["pager_pid"] = pid_of(sdir, "pager.pid")
     obs["sub_pid"] = pid_of(sdir, "sub.pid")
@@ -454,6 +472,21 @@ def simple_words(s):
     except ValueError:
         return False
     return all(re.fullmatch(r"[A-Za-z0-9_./+=:,@%-]+", w) for w in ws)
+
+
+def errexit_req(sc, ob, exit_tables):
+    """Model request for an errexit scenario (`exit_tables` = the model's generated exit-site tables)."""
+    m = sc["model"]
+    mode = m["mode"]
+    if mode == "renderabort":
+        if not exit_tables:
+            return None
+        idx = [i for i, row in enumerate(exit_tables[1]) if row.split("|")[0] == m["site"] and row.split("|")[1] == "fatal"]
+        if not idx:
+            return "pager.run renderabort:999999 1 0 - - git 1 0 0"     # the model knows no such site: it has no run
+        mode = "renderabort:%d" % idx[0]
+    return model_run_req(mode, bool(ob.get("pager_pid")), ob.get("nwrites") or 0, None, m.get("kind", "git"),
+                         m.get("spawnok", True), m.get("status", 0), m.get("stderr_lines", 0))
 
 
 # ------------------------------------------------------------------------------------------
@@ -588,6 +621,181 @@ ANSI_RE = re.compile(rb"\x1b\[[0-9;?]*[ -/]*[@-~]|\x1b\][^\x07\x1b]*(?:\x07|\x1b
 
 def visible_lines(b):
     return [ln.rstrip() for ln in ANSI_RE.sub(b"", b or b"").replace(b"\r", b"").split(b"\n")]
+
+
+# ------------------------------------------------------------------------------------------
+# exit paths taken after the pager was started
+
+PAGER_SLEEP = "0.35"      # the stub pager needs this long to "quit" after its input ended
+ERR_PSEL = ["opt", "gitconfig", "DELTA_PAGER", "PAGER", "less"]
+DIFFARG_SOURCES = ["cli-eq", "cli-short", "gitconfig", "feature-env"]
+GOOD_DIFF_WORDS = ["-U1", "-U0", "--minimal", "-w", "--stat", "-b", "--ignore-blank-lines"]
+# option values that are parsed only while the first hunk / blame line is rendered:
+# (tag, flags, [(option, value template)], input kind)
+LATE_PARSED = [
+    ("line-numbers-left-format", ["--line-numbers"], [("line-numbers-left-format", "{nm:%s}")], "diff"),
+    ("line-numbers-right-format", ["--line-numbers"], [("line-numbers-right-format", "{np:>%s}")], "diff"),
+    ("line-numbers-left-format-precision", ["--line-numbers"], [("line-numbers-left-format", "{nm:4.%s}")], "diff"),
+    ("blame-format", [], [("blame-format", "{author:<%s} {commit:<8}")], "blame"),
+    ("blame-palette", [], [("blame-palette", "%s")], "blame-colour"),
+]
+BLAME_INPUT = (b"94907c0f (A U Thor 2020-05-14 11:13:17 -0400  1) fn main() {\n"
+               b"5b0c1d2e (Someone Else 2021-01-02 03:04:05 +0100  2)     let x = 1;\n")
+
+
+def bad_diff_args(rng):
+    """A --diff-args value that shell_words cannot split: an unbalanced ' or " (a trailing backslash
+    is accepted by shell_words and is not an error)."""
+    pre = rng.sample(GOOD_DIFF_WORDS, rng.randint(0, 2))
+    kind = rng.choice(["squote", "dquote", "dquote-escaped"])
+    word = rng.choice(["-U1", "x", "--word-diff-regex=a b", "-U 3", ""])
+    if kind == "dquote-escaped":
+        word += "\\\""          # the closing quote is escaped: still open
+    q = "'" if kind == "squote" else '"'
+    pos = rng.randint(0, len(pre))
+    return kind, " ".join(pre[:pos] + [q + word] + pre[pos:])
+
+
+def gitconfig_quote(v):
+    return '"' + v.replace("\\", "\\\\").replace('"', '\\"') + '"'
+
+
+def diffargs_parts(source, value):
+    """(args, env, gitconfig text) that give delta the --diff-args `value` through `source`."""
+    if source == "cli-eq":
+        return ["--diff-args=" + value], {}, ""
+    if source == "cli-short":
+        return ["-@=" + value] if value.startswith("-") else ["-@", value], {}, ""
+    if source == "gitconfig":
+        return [], {}, "[delta]\n    diff-args = %s\n" % gitconfig_quote(value)
+    if source == "feature-env":
+        return [], {"DELTA_FEATURES": "+c18cfg"}, "[delta \"c18cfg\"]\n    diff-args = %s\n" % gitconfig_quote(value)
+    raise ValueError(source)
+
+
+def pager_parts(lab, psel):
+    """(args, env, gitconfig text, expected pager basename) selecting a recording stub pager."""
+    stub = os.path.join(lab.pagers, "mypager")
+    if psel == "opt":
+        return ["--pager", stub], {}, "", "mypager"
+    if psel == "gitconfig":
+        return [], {}, "[delta]\n    pager = %s\n" % stub, "mypager"
+    if psel == "DELTA_PAGER":
+        return [], {"DELTA_PAGER": os.path.join(lab.pagers, "pgtwo")}, "", "pgtwo"
+    if psel == "PAGER":
+        return [], {"PAGER": os.path.join(lab.pagers, "pgfour")}, "", "pgfour"
+    if psel == "less":
+        return [], {}, "", "less"       # the stub `less` is first on PATH
+    raise ValueError(psel)
+
+
+def errexit_scenarios(lab, ctx, rng, F):
+    """F: dict of input files. Every scenario: paging always, slow recording stub pager."""
+    scs = []
+    big = 10 ** 20        # does not fit a usize
+
+    def add(family, klass, psel, args, path, want, model=None, stdin=None, env=None, gc="", must_page=False,
+            want_msg=True, ref=None, known=False, **extra):
+        pargs, penv, pgc, pname = pager_parts(lab, psel)
+        gitconfig = (pgc + gc) or None
+        e = {"STUB_SLEEP": PAGER_SLEEP}
+        e.update(penv)
+        e.update(env or {})
+        pre = [] if gitconfig is not None else ["--no-gitconfig"]
+        sc = dict(cls="errexit", family=family, klass=klass, psel=psel, pager_name=pname,
+                  args=pre + ["--paging", "always"] + pargs + args, stdin=stdin, path=path, env=e, gitconfig=gitconfig,
+                  want=want, want_msg=want_msg, must_page=must_page, model=model, strace={}, pager=True, **extra)
+        if ref is not None:
+            r_env = {k: v for k, v in e.items() if k.startswith("STUB_") and k != "STUB_SLEEP"}
+            r_env.update({k: v for k, v in (env or {}).items() if not k.startswith("STUB_")})
+            sc["ref"] = dict(args=(["--no-gitconfig"] if not gc else []) + ["--paging", "never"] + ref, env=r_env,
+                             gitconfig=gc or None, stdin=stdin, path=path)
+        scs.append(sc)
+
+    psels = list(ERR_PSEL)
+    P_PAGERS, P_GIT, P_DIFF = [lab.pagers], [lab.pagers, lab.gitdir], [lab.pagers, lab.diffdir]
+    ab = [F["a"], F["b"]]
+    sub_ok = {"STUB_OUT": F["small"], "STUB_SUB_EXIT": "1"}
+
+    # (A) unparsable --diff-args, every source x every way of selecting the pager (sampled in quick)
+    combos = [(src, ps) for src in DIFFARG_SOURCES for ps in psels]
+    rng.shuffle(combos)
+    fixed = [("cli-eq", "opt"), ("cli-eq", "DELTA_PAGER"), ("gitconfig", "gitconfig"), ("feature-env", "PAGER"), ("cli-short", "less")]
+    chosen = fixed + [c for c in combos if c not in fixed][:ctx.n(5, len(combos))]
+    for j, (src, ps) in enumerate(chosen):
+        kind, val = ("squote", "'-U1") if j == 0 else bad_diff_args(rng)
+        a, e, gc = diffargs_parts(src, val)
+        differ = P_GIT if j % 2 == 0 else P_DIFF
+        add("diff-args-unparsable", "diff-args-unparsable:%s" % src, ps, a + ab, differ, ("ge", 2), model=dict(mode="diffargs"),
+            env=e, gc=gc, value=val, value_kind=kind, source=src)
+    # (A') the valid counterparts: the differ's status, all output delivered
+    for j, (src, ps) in enumerate([("cli-eq", "opt"), ("gitconfig", "DELTA_PAGER"), ("feature-env", "less"), ("cli-short", "gitconfig")]):
+        val = " ".join(rng.sample(GOOD_DIFF_WORDS, rng.randint(1, 2)))
+        a, e, gc = diffargs_parts(src, val)
+        add("diff-args-valid", "diff-args-valid:%s" % src, ps, a + ab, P_GIT, ("eq", 1),
+            model=dict(mode="sub", kind="gitdiff", status=1), env=dict(e, **sub_ok), gc=gc, must_page=True, want_msg=False,
+            ref=a + ab, value=val, source=src)
+    # (B) differ / wrapped command not on PATH
+    for j, (fam, tail, kind) in enumerate([("differ-missing", ab, "gitdiff"), ("wrapped-missing:git", ["git", "log", "-p"], "git"),
+                                           ("wrapped-missing:rg", ["rg", "needle"], "rg")]):
+        for ps in ([psels[j % len(psels)], psels[(j + 2) % len(psels)]] if ctx.quick() else psels):
+            add(fam.split(":")[0], fam, ps, tail, P_PAGERS, ("ge", 2) if kind == "gitdiff" else ("ne", 0),
+                model=dict(mode="sub", kind=kind, spawnok=False))
+    # (C) the differ / wrapped command is killed by a signal or reports trouble, after writing its output
+    subs = [("delta a b (git diff)", ab, P_GIT, "gitdiff"), ("delta a b (diff)", ab, P_DIFF, "diff"),
+            ("delta git show", ["git", "show", "HEAD"], P_GIT, "git"), ("delta rg", ["rg", "needle"], P_GIT, "rg")]
+    for j, (fam, tail, path, kind) in enumerate(subs):
+        out = F["rg"] if kind == "rg" else F["small"]
+        for st, errl in (("sig", 0), (2, 2), (129, 1)):
+            if ctx.quick() and (j + (0 if st == "sig" else 1)) % 2 == 1 and st != "sig":
+                continue
+            ps = psels[(j + (st if isinstance(st, int) else 0)) % len(psels)]
+            differ = kind in ("gitdiff", "diff")
+            want = ("ge", 2) if (st == "sig" and differ) else (("ne", 0) if st == "sig" else ("eq", st))
+            add("child-killed" if st == "sig" else "child-trouble", "%s:%s" % ("child-killed" if st == "sig" else "child-trouble", kind), ps,
+                tail, path, want, model=dict(mode="sub", kind=kind, status=st, stderr_lines=errl),
+                env={"STUB_OUT": out, "STUB_SUB_EXIT": str(st), "STUB_ERR_LINES": str(errl)}, must_page=True, ref=tail, sub_family=fam)
+    # (D) real git on a missing file / a directory: whatever status git gives for the same arguments
+    if os.path.exists("/usr/bin/git"):
+        missing = os.path.join(lab.inputs, "does-not-exist")
+        for j, (fam, x, y) in enumerate((("real-missing-file", F["a"], missing), ("real-directory", F["a"], lab.inputs))):
+            want = subprocess.run(["/usr/bin/git", "diff", "--no-index", "--", x, y], stdout=subprocess.DEVNULL,
+                                  stderr=subprocess.DEVNULL, env={"HOME": lab.home, "GIT_CONFIG_NOSYSTEM": "1"}).returncode
+            add("real-differ-trouble", fam, psels[j % len(psels)], [x, y], [lab.pagers, "/usr/bin"], ("eq", want), want_msg=False)
+    # (E) stdin is a terminal
+    for ps in (psels[:2] if ctx.quick() else psels):
+        add("stdin-terminal", "stdin-terminal", ps, [], P_PAGERS, ("ne", 0), model=dict(mode="tty"), pty_stdin=True)
+    # (F) option values parsed only while rendering (fatal() after the pager was started)
+    late = LATE_PARSED if not ctx.quick() else [LATE_PARSED[0], LATE_PARSED[3], LATE_PARSED[4]] + rng.sample(LATE_PARSED[1:3], 1)
+    for j, (tag, flags, opts, ikind) in enumerate(late):
+        bad = "notacolour%d" % rng.randint(0, 99) if ikind == "blame-colour" else str(big * rng.randint(1, 9))
+        opts = [(o, v % bad) for o, v in opts]
+        for src in (["cli"] if ctx.quick() and j % 2 else ["cli", "gitconfig"]):
+            if src == "cli":
+                gc, aa = "", flags + [x for o, v in opts for x in ("--" + o, v)]
+            else:
+                gc, aa = "[delta]\n" + "".join("    %s = %s\n" % (o, gitconfig_quote(v)) for o, v in opts), list(flags)
+            add("fatal-while-rendering", "fatal-while-rendering:%s" % tag, psels[(j + len(src)) % len(psels)], aa, P_PAGERS, ("ge", 2),
+                model=dict(mode="renderabort", site="src/color.rs:parse_color" if ikind == "blame-colour" else "src/format.rs:parse_line_number_format"),
+                stdin=F["blame"] if ikind.startswith("blame") else F["small"], gc=gc, source=src, value=bad)
+    # (G) subcommands with a pager of their own (`less` from PATH), the reader goes away but lingers
+    for which, a in (("show-themes", ["--show-themes", "--dark"]), ("show-syntax-themes", ["--show-syntax-themes", "--dark"]),
+                     ("show-colors", ["--show-colors"])):
+        gc = ""
+        if which == "show-themes":
+            themes = os.path.join(REPO, "themes.gitconfig")
+            if not os.path.exists(themes):
+                continue
+            gc = "[include]\n    path = %s\n" % themes
+        for close in ((True,) if ctx.quick() else (True, False)):
+            # the reader stops while delta is blocked on a full pipe, i.e. almost surely inside the rendering call
+            sc_env = {"STUB_READ_BYTES": str(rng.randint(2000, 6000))}
+            if close:
+                sc_env["STUB_CLOSE_STDIN"] = "1"
+            add("own-pager-reader-gone", "own-pager-reader-gone:%s" % which, "less", a, P_PAGERS, ("eq", 0), env=sc_env, gc=gc,
+                stdin=F["small"], want_msg=False, own_pager=True, closes_stdin=close)
+            scs[-1]["args"] = [x for x in scs[-1]["args"] if x not in ("--paging", "always")]
+    return scs
 
 
 def run(ctx, rep, only=None):
@@ -829,7 +1037,23 @@ def _run(ctx, rep, lab, only):
     # ---------------------------------------------------------------- less set-up under navigate
     nav_scs = navigate_scenarios(lab, f_two) if only is None else []
 
-    rest = fault_scs + reader_scs + select_scs + status_scs + misc_scs + nav_scs + scenarios
+    # ---------------------------------------------------------------- exits after the pager was started
+    err_scs, err_refs = [], []
+    if only is None:
+        F = dict(a=f_a, b=f_b, small=f_small, rg=f_rg, blame=lab.input_file("blame.txt", BLAME_INPUT))
+        err_scs = errexit_scenarios(lab, ctx, rng, F)
+        seen_refs = {}
+        for sc in err_scs:
+            if sc.get("ref"):
+                key = repr(sorted(sc["ref"].items(), key=lambda kv: kv[0]))
+                sc["refkey"] = key
+                if key not in seen_refs:
+                    seen_refs[key] = True
+                    r = sc["ref"]
+                    err_refs.append(dict(cls="errref", family="errref", refkey=key, args=r["args"], stdin=r["stdin"], path=r["path"],
+                                         env=r["env"], gitconfig=r["gitconfig"]))
+
+    rest = fault_scs + reader_scs + select_scs + status_scs + misc_scs + nav_scs + err_refs + err_scs + scenarios
     rest_obs = parallel_map(lambda t: observe(lab, t[1], idx + t[0]), list(enumerate(rest)))
 
     # reference output for "the pager received all bytes": stdout-mode run of the small input
@@ -837,6 +1061,16 @@ def _run(ctx, rep, lab, only):
     if only is None:
         ref_small = stdout_ref.get("small/plain")
 
+    e_refs = {sc["refkey"]: ob["stdout"] for sc, ob in zip(rest, rest_obs) if sc["cls"] == "errref"}
+    for sc in rest:
+        if sc["cls"] == "errexit" and sc.get("refkey") is not None:
+            sc["expect_stdout"] = e_refs.get(sc["refkey"])
+    exit_tables = None
+    if mdl is not None:
+        ans = mdl.ask(["pager.exits"])[0].split(" ")
+        if ans[0] == "ok":
+            exit_tables = [[r for r in unhx(x).decode().split("\n") if r] for x in ans[1:4]]
+            rep.notes["exit_sites"] = dict(setup=exit_tables[0], render=exit_tables[1], own=exit_tables[2])
     nav_refs = {sc["refkey"]: ob["stdout"] for sc, ob in zip(rest, rest_obs) if sc["cls"] == "navref"}
     for sc in rest:
         if sc["cls"] == "navigate" and sc.get("refkey") is not None:
@@ -867,6 +1101,10 @@ def _run(ctx, rep, lab, only):
                                        sub.get("spawnok", True), sub.get("status", 0), sub.get("stderr_lines", 0)))
         elif c == "oneshot":
             ri = ask(model_run_req("oneshot", False, 1, (0, "bp")))
+        elif c == "errexit" and sc.get("model"):
+            req = errexit_req(sc, ob, exit_tables)
+            if req is not None:
+                ri = ask(req)
         elif c == "navigate":
             ri = ask(nav_req(sc))
         elif c == "select" and not sc.get("missing"):
@@ -947,6 +1185,11 @@ def judge(ctx, rep, lab, sc, ob, ri, answers, ref_small):
                 viol("reader-gone-noise:%s" % tag, "reader gone at write %d/%d: delta wrote to stderr" % (K, n))
             if sc["pager"]:
                 check_after_pager(tag)
+        elif sc["pager"]:
+            # any other write error: reported, and still not before the pager
+            check_after_pager("write-error:" + tag)
+            if silent:
+                viol("silent-error:write-error:" + tag, "write error %s at write %d/%d: no message" % (kind, K, n))
         a = model_ans(ri)
         if a is not None:
             if a[0] != "ok":
@@ -1075,6 +1318,69 @@ def judge(ctx, rep, lab, sc, ob, ri, answers, ref_small):
                                                                model=dict(rc=a[1], silent=a[2])))
         return
 
+    if c == "errref":
+        if rc == "timeout":
+            viol("hang:errref", "reference run did not terminate")
+        return
+
+    if c == "errexit":
+        klass = sc["klass"]
+        rep.count("errexit:" + sc["family"])
+        rep.count("errexit-pager-selected-by:" + sc["psel"])
+        rep.case(key=("errexit", klass, sc["psel"], sc.get("source"), sc.get("value"), sc.get("closes_stdin"),
+                      str((sc.get("model") or {}).get("status"))),
+                 nontrivial=True, sample=dict(cls=c, klass=klass, psel=sc["psel"], args=sc["args"][-4:], rc=rc,
+                                              events=ob.get("events"), stderr=(err or b"")[:80].decode("utf-8", "replace")))
+        started = ob.get("pager_pid") is not None
+        # (1) delta does not end before its pager does: the stub's own exit record vs. our wait ...
+        if started:
+            check_after_pager(klass)
+            # ... and, independently, what delta did: it must wait for that pid before exit_group
+            evs = (ob.get("events") or "").split(",")
+            if "spawnPager" in evs:
+                iw = evs.index("waitPager") if "waitPager" in evs else None
+                ix = next((i for i, e in enumerate(evs) if e.startswith("exit:")), None)
+                if iw is None or (ix is not None and ix < iw):
+                    viol("exit-before-pager:" + klass, "delta did not wait for the pager it started (events: %s)" % ob.get("events"))
+            argv = ob.get("pager_argv") or [""]
+            if os.path.basename(argv[0]) != sc["pager_name"]:
+                viol("precedence:errexit:" + sc["psel"], "pager run: %r, expected %r" % (argv[0], sc["pager_name"]))
+        elif sc.get("must_page"):
+            viol("pager-not-started:" + klass, "output was produced but the selected pager was not run")
+        # (2) the documented status
+        op, n = sc["want"]
+        ok = {"eq": rc == n, "ge": isinstance(rc, int) and rc >= n, "ne": rc != n}[op]
+        if not ok:
+            viol("status:" + klass, "exit status %r, expected %s %r" % (rc, {"eq": "==", "ge": ">=", "ne": "!="}[op], n))
+        # (3) an error is reported / a quiet path stays quiet
+        if sc["want_msg"] and not err:
+            viol("silent-error:" + klass, "error exit (status %r) without any message on stderr" % (rc,))
+        if sc["family"] in ("diff-args-valid", "own-pager-reader-gone") and err and not (sc.get("own_pager") and b"bat warning" in err):
+            viol("stderr:" + klass, "unexpected stderr output: %r" % err[:200])
+        # (4) nothing bypasses the pager, everything reaches it
+        if started and ob["stdout"]:
+            viol("output-bypassed-pager:" + klass, "%d bytes went to stdout instead of the pager" % len(ob["stdout"]))
+        exp = sc.get("expect_stdout")
+        if sc.get("ref") is not None and exp is not None and started and ob.get("pager_stdin") != exp:
+            viol("pager-bytes:" + klass, "the pager did not receive exactly the bytes of the --paging never run (%r vs %d expected)" % (
+                None if ob.get("pager_stdin") is None else len(ob["pager_stdin"]), len(exp)))
+        if sc.get("must_page") and exp is not None and not exp:
+            viol("no-output:" + klass, "the reference run produced no output (harness problem?)")
+        a = model_ans(ri)
+        if a is not None:
+            silent = not err
+            if a[0] != "ok":
+                rep.corr_case("pager.run(errexit)", False, dict(scenario=replayable(sc), impl=dict(rc=rc, events=ob.get("events")), model=" ".join(a)))
+            else:
+                def norm(e):
+                    return ",".join(x for x in (e or "").split(",") if x != "closePager")
+                # without any rendering write the pager's pipe cannot be told from the trace: closePager is not compared
+                ev_i, ev_m = (ob.get("events"), a[3]) if ob.get("nwrites") else (norm(ob.get("events")), norm(a[3]))
+                agree = str(rc) == a[1] and (silent == (a[2] == "1")) and ev_i == ev_m
+                rep.corr_case("pager.run(errexit)", agree, dict(scenario=replayable(sc), impl=dict(rc=rc, silent=silent, events=ob.get("events")),
+                                                                model=dict(rc=a[1], silent=a[2], events=a[3])))
+        return
+
     if c == "oneshot":
         rep.case(key=("oneshot", sc["family"]), nontrivial=True, sample=dict(cls=c, family=sc["family"], rc=rc,
                                                                                 stderr=err[:80].decode("utf-8", "replace")))
@@ -1172,6 +1478,7 @@ def replay(ctx, rep, obj):
         lab.input_file("plain.txt", TEXT_PLAIN); lab.input_file("rg.json", RG_JSON)
         lab.input_file("big.diff", big_diff(2400)); lab.input_file("a.txt", b"one\ntwo\nthree\n")
         lab.input_file("b.txt", b"one\nTWO\nthree\n"); lab.input_file("empty", b"")
+        lab.input_file("blame.txt", BLAME_INPUT)
 
         def fix(x):
             if isinstance(x, str) and old_root:
@@ -1206,6 +1513,10 @@ def _replay_one(ctx, rep, lab, sc):
         r = sc["ref"]
         sc["expect_stdout"] = observe(lab, dict(cls="navref", family="navref", refkey=sc.get("refkey"), args=r["args"],
                                                 stdin=sc.get("stdin"), path=sc["path"], env=r["env"], gitconfig=r["gitconfig"]), 0)["stdout"]
+    if sc["cls"] == "errexit" and sc.get("ref"):
+        r = sc["ref"]
+        sc["expect_stdout"] = observe(lab, dict(cls="errref", family="errref", args=r["args"], stdin=r["stdin"], path=r["path"],
+                                                env=r["env"], gitconfig=r["gitconfig"]), 0)["stdout"]
     if sc["cls"] == "fault" and "n" not in sc:
         sc["n"] = 0
     ob = observe(lab, sc, 1)
@@ -1223,6 +1534,13 @@ def _replay_one(ctx, rep, lab, sc):
     elif c == "oneshot":
         reqs.append(model_run_req("oneshot", False, 1, (0, "bp")))
         ri = 0
+    elif c == "errexit" and sc.get("model") and mdl is not None:
+        ans = mdl.ask(["pager.exits"])[0].split(" ")
+        tables = [[r for r in unhx(x).decode().split("\n") if r] for x in ans[1:4]] if ans[0] == "ok" else None
+        req = errexit_req(sc, ob, tables)
+        if req is not None:
+            reqs.append(req)
+            ri = 0
     elif c == "navigate":
         reqs.append(nav_req(sc))
         ri = 0
